@@ -169,49 +169,63 @@ example (env : Env) : ∃ bc, BcOK env bc :=
 /-- the key of an edge `(x, y)` -/
 def kp (p : Coord × Coord) : CKey × CKey := (p.1.key, p.2.key)
 
-/-- the model's hole part of `GeoPolygon.__eq__` -/
-def holesEq (env : Env) (hs hs' : List Hole) : Bool :=
-  decide (hs.length = hs'.length) && pySetEq edgeSetEq (hs.map (Hole.edges env)) (hs'.map (Hole.edges env))
+/-- the model's hole part of `GeoPolygon.__eq__`, once the hole counts agree -/
+def holeSetsEq (env : Env) (hs hs' : List Hole) : Bool :=
+  pySetEq edgeSetEq (hs.map (Hole.edges env)) (hs'.map (Hole.edges env))
 
+/-- `zip(bc, bc[1:])` of a hole, as keys, is the model's edge list (the items listed as they are, or re-paired by a
+    comprehension `(x, y) for x, y in …`) -/
 theorem edges_of_bc (hbc : BcOK env bc) (h : Hole) :
-    ((((bc h).zip ((bc h).drop 1))).map (fun p => (p.1, p.2))).map kp = Hole.edges env h := by
-  simp only [Hole.edges, ← hbc h, keys, List.map_map]
+    ((bc h).zip ((bc h).drop 1)).map kp = Hole.edges env h := by
+  simp only [Hole.edges, ← hbc h, keys]
   rw [← List.drop_one, ← List.map_drop, List.zip_map]
   apply List.map_congr_left
   intro p _; rfl
 
-/-- **the code after the rotation loop** (`if not outline_eq`, the hole count, the two sets of frozensets of edges) -/
-theorem polyAfter_eq (hbc : BcOK env bc) (a b : PolyR) (s o : List Coord) (oe : Bool) :
-    Src.Eq.polyEq.loop1.after heq bc wedge meq mheq mkey a b s o oe = .ok (oe && holesEq env a.holes b.holes) := by
-  unfold Src.Eq.polyEq.loop1.after holesEq
+theorem edges_of_bc' (hbc : BcOK env bc) (h : Hole) :
+    ((((bc h).zip ((bc h).drop 1))).map (fun p => (p.1, p.2))).map kp = Hole.edges env h := by
+  rw [← edges_of_bc bc env hbc h, List.map_map]; rfl
+
+/-- the code after the rotation loop reads neither our open outline nor the rotating one -/
+theorem polyAfter_indep (a b : PolyR) (s s' o o' : List Coord) (oe : Bool) :
+    Src.Eq.polyEq.loop1.after heq bc wedge meq mheq mkey a b s o oe =
+      Src.Eq.polyEq.loop1.after heq bc wedge meq mheq mkey a b s' o' oe := rfl
+
+/-- **the code after the rotation loop** (`if not outline_eq`, the two sets of frozensets of edges), for equal hole
+    counts (the count may be tested here or before the loop) -/
+theorem polyAfter_eq (hbc : BcOK env bc) (a b : PolyR) (s o : List Coord) (oe : Bool)
+    (hh : a.holes.length = b.holes.length) :
+    Src.Eq.polyEq.loop1.after heq bc wedge meq mheq mkey a b s o oe = .ok (oe && holeSetsEq env a.holes b.holes) := by
+  unfold Src.Eq.polyEq.loop1.after holeSetsEq
   cases oe
   · simp
-  · by_cases hl : a.holes.length = b.holes.length
-    · simp only [hl, bne_self_eq_false, Bool.false_eq_true, if_false, if_true, decide_true, Bool.true_and]
-      congr 1
-      refine setOfFrozensets_eq kp _ _ ?_ ?_ _ (Hole.edges env) (edges_of_bc bc env hbc) a.holes b.holes
-      · intro x y
-        simp only [Py.pairEq, coordHash_eq, kp]
-        rw [Bool.eq_iff_iff]; simp [Prod.ext_iff]
-      · intro x y
-        simp only [Py.pairEq, coordHash_eq, coordEq_eq, kp]
-        rw [Bool.eq_iff_iff]; simp [Prod.ext_iff, Coord.eq_iff_key]
-    · have : ((a.holes.length : Int) != (b.holes.length : Int)) = true := by simpa using hl
-      simp [this, hl]
+  · simp only [hh, bne_self_eq_false, Bool.false_eq_true, if_false, if_true, Bool.true_and, Bool.not_true, ↓reduceIte]
+    congr 1
+    refine setOfFrozensets_eq kp _ _ ?_ ?_ _ _ (Hole.edges env) ?_ ?_ a.holes b.holes
+    rotate_left 2
+    · intro h; first | exact edges_of_bc bc env hbc h | exact edges_of_bc' bc env hbc h
+    · intro h; first | exact edges_of_bc bc env hbc h | exact edges_of_bc' bc env hbc h
+    · intro x y
+      simp only [Py.pairEq, coordHash_eq, kp]
+      rw [Bool.eq_iff_iff]; simp [Prod.ext_iff]
+    · intro x y
+      simp only [Py.pairEq, coordHash_eq, coordEq_eq, kp]
+      rw [Bool.eq_iff_iff]; simp [Prod.ext_iff, Coord.eq_iff_key]
 
 /-- **the rotation loop**: for every iteration list and every current rotation of the other outline (of the same
-    length as ours), the translated loop answers the model's `eqLoop` on the key lists and never indexes an empty list -/
-theorem polyLoop_eq (hbc : BcOK env bc) (a b : PolyR) (s : List Coord) :
+    length as ours), the translated loop never indexes an empty list and reaches the code after it — exhausted or by
+    `break` — with `outline_eq` the model's `eqLoop` on the key lists -/
+theorem polyLoop_eq (a b : PolyR) (s : List Coord) :
     ∀ (l : List Int) (o : List Coord), s.length = o.length →
       Src.Eq.polyEq.loop1 heq bc wedge meq mheq mkey a b s l o false =
-        .ok (eqLoop (keys s) (keys o) l.length && holesEq env a.holes b.holes) := by
+        Src.Eq.polyEq.loop1.after heq bc wedge meq mheq mkey a b s o (eqLoop (keys s) (keys o) l.length) := by
   intro l
   induction l with
-  | nil => intro o _; simp [Src.Eq.polyEq.loop1, polyAfter_eq _ _ _ _ _ _ _ hbc, eqLoop]
+  | nil => intro o _; simp [Src.Eq.polyEq.loop1, eqLoop]
   | cons i l ih =>
     intro o hlen
     unfold Src.Eq.polyEq.loop1
-    simp only [coordEq_fn, listEqBy_coord, List.length_cons, eqLoop, polyAfter_eq _ _ _ _ _ _ _ hbc]
+    simp only [coordEq_fn, listEqBy_coord, List.length_cons, eqLoop]
     by_cases ht : keys s = keys o ∨ keys s = (keys o).reverse
     · have : (keys s == keys o || keys s == keys o.reverse) = true := by
         simpa [keys, List.map_reverse] using ht
@@ -226,13 +240,18 @@ theorem polyLoop_eq (hbc : BcOK env bc) (a b : PolyR) (s : List Coord) :
       | cons x xs =>
         simp only [Py.getIdx, List.drop_succ_cons, List.drop_zero]
         rw [ih (xs ++ [x]) (by simpa using hlen)]
-        simp [keys, rotL]
+        have hk : keys (xs ++ [x]) = rotL (keys (x :: xs)) := by simp [keys, rotL]
+        rw [hk]
+        exact polyAfter_indep ..
 
 theorem srcOpen (l : List Coord) : (if !(l.dropLast).isEmpty then l.dropLast else l) = openOutline l := by
   unfold openOutline; cases h : l.dropLast.isEmpty <;> simp [h]
 
-theorem range_length (n : Nat) : (Py.range 0 (max (n : Int) 1)).length = max n 1 := by
-  simp only [Py.range, List.length_map, List.length_range]; omega
+theorem range_length (n : Int) : (Py.range 0 n).length = n.toNat := by
+  simp [Py.range]
+
+theorem toNat_max1 (n : Nat) : (max (n : Int) 1).toNat = max n 1 := by omega
+theorem toNat_max1' (n : Nat) : (max 1 (n : Int)).toNat = max n 1 := by omega
 
 /-- **the translated `GeoPolygon.__eq__`** never raises and answers the model's `Shape.eq` -/
 theorem polyEq_eq (hbc : BcOK env bc) (a b : PolyR) :
@@ -242,10 +261,18 @@ theorem polyEq_eq (hbc : BcOK env bc) (a b : PolyR) :
   cases hdt : dtEq a.dt b.dt
   · simp
   · by_cases hl : a.outline.length = b.outline.length
-    · have hne : ((a.outline.length : Int) != (b.outline.length : Int)) = false := by simp [hl]
-      simp only [hne, if_true, Bool.false_eq_true, if_false]
-      rw [polyLoop_eq _ _ _ _ _ _ _ hbc a b _ _ _ (openOutline_length hl), range_length]
-      simp [outlineEq, hl, holesEq, Bool.and_assoc]
+    · by_cases hh : a.holes.length = b.holes.length
+      · simp only [hl, hh, bne_self_eq_false, Bool.false_eq_true, if_false, if_true, ↓reduceIte]
+        rw [polyLoop_eq _ _ _ _ _ _ a b _ _ _ (openOutline_length hl), polyAfter_eq _ _ _ _ _ _ _ hbc _ _ _ _ _ hh]
+        simp [outlineEq, hl, hh, holeSetsEq, range_length, toNat_max1, toNat_max1']
+      · -- different hole counts: `False`, whether the count is tested after the loop or before it
+        have hne : ((a.holes.length : Int) != (b.holes.length : Int)) = true := by simpa using hh
+        first
+          | (simp [hl, hne, hh]; done)
+          | (simp only [hl, bne_self_eq_false, Bool.false_eq_true, if_false, ↓reduceIte]
+             rw [polyLoop_eq _ _ _ _ _ _ a b _ _ _ (openOutline_length hl)]
+             unfold Src.Eq.polyEq.loop1.after
+             simp [hne, hh])
     · have hne : ((a.outline.length : Int) != (b.outline.length : Int)) = true := by simpa using hl
       simp [hne, outlineEq, hl]
 
@@ -280,7 +307,7 @@ theorem multiEq_eq (a b : Multi) :
       Multi.eq? env a (.multi b) := by
   have hm : (fun x y => (Shape.hashKey env x).equiv (Shape.hashKey env y) && Shape.eq env x y) = Shape.memR env := rfl
   simp only [Src.Eq.multiEq, Multi.eq?, optEq_dt, setEq_dedup, hm] <;>
-    (by_cases hk : a.kind = b.kind <;> simp [hk])
+    (by_cases hk : a.kind = b.kind <;> simp [hk] <;> grind)
 
 theorem multiEqOther_eq (a : Multi) (s : Shape) :
     Src.Eq.multiEqOther heq bc wedge meq mheq mkey a () = Multi.eq? env a (.single s) := rfl
